@@ -166,6 +166,9 @@ def cases(tier):
     # all orderings of a 3-element list
     for perm in itertools.permutations([[1, 0, 0], [0, 2, 1], [0, 0, 0]]):
         out.append(Block(la=1, lb=1, Ka=1, Kb=1, Ma=1, Mb=1, orders=[list(t) for t in perm]))
+    # equal l and >= 2 columns on both sides (two different generalized shells of one type)
+    for l in (0, 1):
+        out.append(Block(la=l, lb=l, Ka=1, Kb=2, Ma=2, Mb=2, orders=[[0, 0, 0], [1, 0, 1]]))
     out.append(Public(ls=[0, 1], types="cc", Ks=[2, 1], Ms=[1, 2], orders=[[1, 0, 0], [0, 1, 1]]))
     out.append(Public(ls=[2, 1], types="sc", Ks=[1, 1], Ms=[1, 1], orders=[[0, 0, 2], [1, 1, 0]]))
     out.append(Public(ls=[1, 1, 0], types="ccc", Ks=[1, 1, 1], Ms=[1, 1, 1], orders=[[1, 0, 1], [0, 2, 0]], twin={"1": 0}, share={"2": 0}))
